@@ -610,6 +610,14 @@ class ExecMixin:
             self._close_loop_overlay(res, lc, had_break)
             self._finalize_builds(res, lc, had_break, lo == 0)
             self._kill_token(res, lc.token, None)
+            if self.number_locals:
+                # value numbering of loop results: a joined (sym-less) local is numbered where the join happens, so that
+                # its number depends on the enclosing loops only, not on inner loops that merely read it
+                fid = frame.fid
+                toks = tuple(l.token for l in self.loops)
+                for key, v in list(res.vars.items()):
+                    if key[0] == fid and isinstance(v, Num) and v.sym is None and v.const is None:
+                        res.vars[key] = replace(v, sym=("opq", frame.label, key[1], toks))
         state.assign_from(res)
 
     def exec_Break(self, st, state):
